@@ -127,8 +127,72 @@ func (v *Verifier) lock(s *State, mu *Value, write bool, pos token.Pos) {
 		return
 	}
 	u := under(st).(*types.Struct)
+	if len(tc.Guards[field]) > 0 {
+		s.bumpWM() // other critical sections may have allocated
+	}
 	for _, gf := range tc.Guards[field] {
 		found := false
+		if strings.HasPrefix(gf, "ghost ") {
+			// the contents of a ghost map variable are protected by this mutex
+			gn := strings.TrimSpace(strings.TrimPrefix(gf, "ghost "))
+			g, ok := s.ghost[gn]
+			if !ok || !isMap(g.T) {
+				v.abort("CONTRACT-STALE: guards: %q is not a ghost map of this package", gn)
+			}
+			ms := map[string]Sort{}
+			addMapKeys(ms, g.T)
+			for _, k := range sortedKeys(ms) {
+				h := s.heapArr(k, ms[k])
+				_, inner, _ := arrayParts(ms[k])
+				s.heap[k] = Store(h, g.term(), Fresh("locked!"+gn, inner))
+			}
+			v.assumeMapValuesAllocated(s, g)
+			continue
+		}
+		if gf == "once" {
+			// every sync.Once flag may have been set by another critical section
+			// every free-standing sync.Once (closure locals) may have fired in another critical section
+			s.heap["O:ptr"] = Fresh("locked!O_ptr", onceSort)
+			continue
+		}
+		if k := strings.Index(gf, "."); k > 0 {
+			// Type.field: the whole field heap of another type of this package is protected by this mutex
+			ot := v.lookupNamedType(shortPkg(typePkg(st).Path()) + "." + gf[:k])
+			if ot == nil {
+				v.abort("CONTRACT-STALE: guards: unknown type %s", gf[:k])
+			}
+			ou := under(ot).(*types.Struct)
+			done := false
+			for i := 0; i < ou.NumFields(); i++ {
+				if ou.Field(i).Name() == gf[k+1:] {
+					if typeName(ou.Field(i).Type()) == "sync.Once" {
+						n := "O:" + typeName(ot) + "." + ou.Field(i).Name()
+						s.heap[n] = Fresh("locked!"+n, onceSort)
+					} else {
+						for _, hk := range heapKeys(structFieldBase(ot, i), ou.Field(i).Type(), SInt) {
+							s.freshHeap("locked!", hk.name, hk.sort)
+						}
+					}
+					done = true
+				}
+			}
+			if otc := v.contracts.types[typeName(ot)]; otc != nil && !done {
+				for _, g := range otc.Ghost {
+					if g.Name == gf[k+1:] {
+						ev := &Eval{v: v, st: s, pkg: typePkg(st)}
+						gt := ev.resolveType(g.Typ)
+						for _, hk := range heapKeys("G:"+typeName(ot)+"."+g.Name, gt, SInt) {
+							s.heap[hk.name] = Fresh("locked!"+hk.name, hk.sort)
+						}
+						done = true
+					}
+				}
+			}
+			if !done {
+				v.abort("CONTRACT-STALE: guards: unknown field %s", gf)
+			}
+			continue
+		}
 		for i := 0; i < u.NumFields(); i++ {
 			if u.Field(i).Name() == gf {
 				found = true
@@ -159,6 +223,15 @@ func (v *Verifier) lock(s *State, mu *Value, write bool, pos token.Pos) {
 	for _, inv := range tc.Invs[field] {
 		ev := &Eval{v: v, st: s, old: s, env: map[string]*Value{"self": scalar(types.NewPointer(st), obj)}, mode: evalCall, pkg: typePkg(st)}
 		s.assume(ev.boolExpr(inv.Expr))
+	}
+	// protocol assumptions of the function under verification about guarded state (e.g. "this done func still owns one
+	// holder unit"): assumed right after the first guarded Lock, and listed
+	if s.frame != nil && s.frame.fn == v.top && v.topC != nil && len(tc.Guards[field]) > 0 && v.lockSnap[key] == nil {
+		for _, c := range v.topC.AssumeLocked {
+			ev := v.newEval(s, v.top, v.topCells, evalLoop)
+			s.assume(ev.boolExpr(c.Expr))
+			v.assumptions["protocol assumption of "+funcRef(v.top)+" (assumelocked): "+c.Text] = true
+		}
 	}
 	// snapshot for locked(e): the state right after the first acquisition of a monitor in the function under verification
 	if len(tc.Guards[field]) > 0 {
@@ -259,12 +332,13 @@ func nativeOnceDo(v *Verifier, s *State, c *ssa.CallCommon, f *ssa.Function, a [
 		v.trusted["sync.Once.Do(<unknown>)"] = true
 		return nil
 	}
-	h := s.heapArr("once#done", ArrSort(SInt, SBool))
-	done := Select(h, once.L[0])
+	slot, idx := onceSlot(once)
+	h := s.heapArr(slot, onceSort)
+	done := Select(h, idx)
 	// run f in a branch where !done
 	run := s.clone()
 	run.assume(Not(done))
-	run.heap["once#done"] = Store(h, once.L[0], True)
+	run.heap[slot] = Store(h, idx, True)
 	v.inline(run, fn.Clo.Fn, nil, fn.Clo, p)
 	skip := s.clone()
 	skip.assume(done)
@@ -274,8 +348,8 @@ func nativeOnceDo(v *Verifier, s *State, c *ssa.CallCommon, f *ssa.Function, a [
 	}
 	sts = append(sts, skip)
 	m := mergeStates(sts)
-	if len(m) != 1 {
-		v.abort("sync.Once.Do: unmergeable states")
+	for _, x := range m[1:] {
+		v.forks = append(v.forks, fork{st: x})
 	}
 	*s = *m[0]
 	return nil
@@ -294,6 +368,8 @@ func nativeSortSearch(v *Verifier, s *State, c *ssa.CallCommon, f *ssa.Function,
 		return scalar(types.Typ[types.Int], r)
 	}
 	intT := types.Typ[types.Int]
+	v.noFork++
+	defer func() { v.noFork-- }()
 	// obligations of the predicate for every i in [0,n)
 	{
 		probe := s.clone()
@@ -444,3 +520,17 @@ func nativeSprintf(v *Verifier, s *State, c *ssa.CallCommon, f *ssa.Function, a 
 	}
 	return r
 }
+
+
+// onceSlot: where the "has fired" flag of a sync.Once lives. A Once that is a field of a struct object is kept in a
+// per-(type, field) heap indexed by the object reference (no address arithmetic, so quantifying over object references
+// cannot collide with other memory); any other Once (a captured local) is kept in "O:ptr" indexed by its address.
+func onceSlot(p *Value) (string, *Term) {
+	if p.LV != nil && p.LV.kind == lvField && len(p.LV.path) == 0 {
+		u := under(p.LV.st).(*types.Struct)
+		return "O:" + typeName(p.LV.st) + "." + u.Field(p.LV.field).Name(), p.LV.obj
+	}
+	return "O:ptr", p.L[0]
+}
+
+var onceSort = ArrSort(SInt, SBool)
